@@ -428,9 +428,16 @@ impl<'a> Reader<&'a [u8]> {
                 Ok(span) => span.start == old(self).bufpos() && span.start <= span.end <= final(self).bufpos(),
                 Err(_) => true,
             },
+            // C12 (matching): with end names checked, skipping the innermost open element consumes input exactly up
+            // to and including ITS end tag, counting nested elements of the same name: the element is closed, nothing else
+            skip_domain(old(self).state, end.0@) && r is Ok ==> final(self).state.stack() == old(self).state.stack().drop_last(),
  {
         let ghost cfg0 = self.state.config;
         let ghost pos0 = self.bufpos();
+        let ghost s0 = self.state.stack();
+        let ghost good = skip_domain(self.state, end.0@);
+        let ghost mut t: Seq<Seq<u8>> = Seq::empty();
+        proof { assert(s0 + t =~= s0); }
         Ok({
         // Because we take position after the event before the End event,
         // it is important that this position indicates beginning of the End event.
@@ -457,6 +464,7 @@ impl<'a> Reader<&'a [u8]> {
                 !(self.state.state is Done) ==> self.state.offset + self.reader.remaining().len() <= u64::MAX,
                 self.reader.remaining().len() <= usize::MAX,
                 depth >= 0,
+                good ==> self.state.stack() == s0 + t && depth as int == count_name(t, end.0@),
                 self.state.config == (Config { trim_text_start: false, ..cfg0 }),
                 trim == cfg0.trim_text_start,
                 start == pos0, start <= self.bufpos(),
@@ -464,20 +472,42 @@ impl<'a> Reader<&'a [u8]> {
                 self.inv(), self.reader.faults() >= old(self).reader.faults(),
                 self.state.config == cfg0,
                 __lv1.start == pos0 && __lv1.start <= __lv1.end <= self.bufpos(),
+                good ==> self.state.stack() == s0.drop_last(),
             decreases measure(self.state, self.reader.remaining())
         {
             // A-depth (stated assumption, not replayable here): fewer than 2^31 - 1 nested same-name elements
             assume(depth < 0x7fff_ffff);
             {}
             let end_m = self.buffer_position();
+            let ghost st_before = self.state.stack();
             match self.read_event_impl(()) {
                 Err(e) => {
                     self.config_mut().trim_text_start = trim;
                     return Err(e);
                 }
 
-                Ok(Event::Start(e)) if e.name() == end => depth += 1,
+                Ok(Event::Start(e)) if e.name() == end => { proof {
+                    if good {
+                        let n = e.buf@.subrange(0, e.name_len as int);
+                        lemma_count_push(t, n, end.0@);
+                        assert((s0 + t).push(n) =~= s0 + t.push(n));
+                        t = t.push(n);
+                    }
+                } depth += 1 },
                 Ok(Event::End(e)) if e.name() == end => {
+                    proof {
+                        if good {
+                            if t.len() > 0 {
+                                assert((s0 + t).last() == t.last());
+                                lemma_count_push(t.drop_last(), t.last(), end.0@);
+                                assert(t.drop_last().push(t.last()) =~= t);
+                                assert((s0 + t).drop_last() =~= s0 + t.drop_last());
+                                t = t.drop_last();
+                            } else {
+                                assert(s0 + t =~= s0);
+                            }
+                        }
+                    }
                     if depth == 0 {
                         self.config_mut().trim_text_start = trim;
                         { __lv1 = start..end_m; break; };
@@ -489,6 +519,28 @@ impl<'a> Reader<&'a [u8]> {
                     return Err(Error::missed_end(end, self.decoder()));
                 }
                 _ => (),
+            }
+            proof {
+                // the remaining cases: a Start / End of another name, or an event that leaves the stack alone
+                if good && self.state.stack() != s0 + t {
+                    if self.state.stack().len() == st_before.len() + 1 {
+                        let n = self.state.stack().last();
+                        assert(self.state.stack() =~= st_before.push(n));
+                        lemma_count_push(t, n, end.0@);
+                        assert((s0 + t).push(n) =~= s0 + t.push(n));
+                        t = t.push(n);
+                    } else if self.state.stack().len() + 1 == st_before.len() {
+                        if t.len() > 0 {
+                            assert((s0 + t).last() == t.last());
+                            lemma_count_push(t.drop_last(), t.last(), end.0@);
+                            assert(t.drop_last().push(t.last()) =~= t);
+                            assert((s0 + t).drop_last() =~= s0 + t.drop_last());
+                            t = t.drop_last();
+                        } else {
+                            assert(s0 + t =~= s0);
+                        }
+                    }
+                }
             }
         } __lv1
     })
@@ -542,9 +594,16 @@ impl<R: BufRead> Reader<R> {
                 Ok(span) => span.start == old(self).bufpos() && span.start <= span.end <= final(self).bufpos(),
                 Err(_) => true,
             },
+            // C12 (matching): with end names checked, skipping the innermost open element consumes input exactly up
+            // to and including ITS end tag, counting nested elements of the same name: the element is closed, nothing else
+            skip_domain(old(self).state, end.0@) && r is Ok ==> final(self).state.stack() == old(self).state.stack().drop_last(),
  {
         let ghost cfg0 = self.state.config;
         let ghost pos0 = self.bufpos();
+        let ghost s0 = self.state.stack();
+        let ghost good = skip_domain(self.state, end.0@);
+        let ghost mut t: Seq<Seq<u8>> = Seq::empty();
+        proof { assert(s0 + t =~= s0); }
         Ok({
         // Because we take position after the event before the End event,
         // it is important that this position indicates beginning of the End event.
@@ -571,6 +630,7 @@ impl<R: BufRead> Reader<R> {
                 !(self.state.state is Done) ==> self.state.offset + self.reader.remaining().len() <= u64::MAX,
                 self.reader.remaining().len() <= usize::MAX,
                 depth >= 0,
+                good ==> self.state.stack() == s0 + t && depth as int == count_name(t, end.0@),
                 self.state.config == (Config { trim_text_start: false, ..cfg0 }),
                 trim == cfg0.trim_text_start,
                 start == pos0, start <= self.bufpos(),
@@ -578,6 +638,7 @@ impl<R: BufRead> Reader<R> {
                 self.inv(), self.reader.faults() >= old(self).reader.faults(),
                 self.state.config == cfg0,
                 __lv1.start == pos0 && __lv1.start <= __lv1.end <= self.bufpos(),
+                good ==> self.state.stack() == s0.drop_last(),
             decreases measure(self.state, self.reader.remaining())
         {
             // A-depth (stated assumption, not replayable here): fewer than 2^31 - 1 nested same-name elements
@@ -586,14 +647,35 @@ impl<R: BufRead> Reader<R> {
             buf.clear();
         }
             let end_m = self.buffer_position();
+            let ghost st_before = self.state.stack();
             match self.read_event_impl(buf) {
                 Err(e) => {
                     self.config_mut().trim_text_start = trim;
                     return Err(e);
                 }
 
-                Ok(Event::Start(e)) if e.name() == end => depth += 1,
+                Ok(Event::Start(e)) if e.name() == end => { proof {
+                    if good {
+                        let n = e.buf@.subrange(0, e.name_len as int);
+                        lemma_count_push(t, n, end.0@);
+                        assert((s0 + t).push(n) =~= s0 + t.push(n));
+                        t = t.push(n);
+                    }
+                } depth += 1 },
                 Ok(Event::End(e)) if e.name() == end => {
+                    proof {
+                        if good {
+                            if t.len() > 0 {
+                                assert((s0 + t).last() == t.last());
+                                lemma_count_push(t.drop_last(), t.last(), end.0@);
+                                assert(t.drop_last().push(t.last()) =~= t);
+                                assert((s0 + t).drop_last() =~= s0 + t.drop_last());
+                                t = t.drop_last();
+                            } else {
+                                assert(s0 + t =~= s0);
+                            }
+                        }
+                    }
                     if depth == 0 {
                         self.config_mut().trim_text_start = trim;
                         { __lv1 = start..end_m; break; };
@@ -605,6 +687,28 @@ impl<R: BufRead> Reader<R> {
                     return Err(Error::missed_end(end, self.decoder()));
                 }
                 _ => (),
+            }
+            proof {
+                // the remaining cases: a Start / End of another name, or an event that leaves the stack alone
+                if good && self.state.stack() != s0 + t {
+                    if self.state.stack().len() == st_before.len() + 1 {
+                        let n = self.state.stack().last();
+                        assert(self.state.stack() =~= st_before.push(n));
+                        lemma_count_push(t, n, end.0@);
+                        assert((s0 + t).push(n) =~= s0 + t.push(n));
+                        t = t.push(n);
+                    } else if self.state.stack().len() + 1 == st_before.len() {
+                        if t.len() > 0 {
+                            assert((s0 + t).last() == t.last());
+                            lemma_count_push(t.drop_last(), t.last(), end.0@);
+                            assert(t.drop_last().push(t.last()) =~= t);
+                            assert((s0 + t).drop_last() =~= s0 + t.drop_last());
+                            t = t.drop_last();
+                        } else {
+                            assert(s0 + t =~= s0);
+                        }
+                    }
+                }
             }
         } __lv1
     })
